@@ -1,7 +1,8 @@
 /-
   BB.Props.C04Program — C04 at program level, single `-c` run, for literal (label-free) instructions:
-  every 2-byte instruction of the list held after resolve_aligns was either written compressed in the
-  source, or was produced by one of the two compression passes from a 32-bit instruction `ins`
+  every 2-byte instruction of the list held after resolve_aligns (`lay.aligned`, where
+  `layoutOf H true items = .ok lay` — a FUNCTION of the inputs, Props/C04) was either written compressed in
+  the source (it is the register-aliased image of a compressed instruction item of `items`), or was produced by one of the two compression passes from a 32-bit instruction `ins`
   (`ItemStep`), and in the latter case, when `ins` has a label-free immediate, the two output bytes at
   the item's offset are the halfword of a legal RVC instruction that executes exactly like the
   instruction `ins` names when resolved against the FINAL tables at that offset.
@@ -16,6 +17,7 @@
   instructions whose immediate mentions a label (branch / jump targets included).
 -/
 import BB.Lemmas.CompressThread
+import BB.Lemmas.LayoutAnchor
 namespace BB.Props.C04
 open BB BB.Spec BB.Lemmas
 open BB.Props.C03 (Land Finish)
@@ -96,19 +98,20 @@ theorem compressed_origin (H : Hooks) (constants : Dict)
         exact Or.inr ⟨_, hnc0, .compressed line _ x0 c preds position labels hm hall hcf haj⟩
   · exact Or.inr ⟨ins, hnc, hs5⟩
 
-/-- **C04, program level, single run, literal instructions.**  In a successful `-c` run every 2-byte
-    instruction item of the list held after resolve_aligns either stood compressed in the (aliased)
-    source, or replaced a 32-bit instruction `ins` by a compression decision (`ItemStep`); and if `ins`
+/-- **C04, program level, single run, literal instructions.**  `lay` is the layout the model computes
+    (`layoutOf`), its tables are the returned ones, `lay.aligned` is what `Land` turns into the output bytes.
+    In a successful `-c` run every 2-byte instruction item of `lay.aligned` either is the aliased image of a
+    compressed instruction item of the SOURCE `items`, or replaced a 32-bit instruction `ins` by a compression decision (`ItemStep`); and if `ins`
     is label-free, then for the meaning `i32` that `ins` has at the RETURNED tables and the item's own
     byte offset, the two output bytes there are the halfword of a legal RVC instruction `ci` with
     `execC ci s = exec i32 2 s` for every state. -/
 theorem assemble_compressed_literal_sound (H : Hooks) (items : List Item) (r : AsmResult)
     (hlit : ∀ env line p, LitOK (evalAt H env line p))
     (h : assembleItems H true items [] [] = .ok r) :
-    ∃ items2 items7 out : List Item, Expands items items7 ∧ Land H r.constants r.labels 0 items7 out ∧
-      r.bytes = blobBytes out ∧
-      ∀ (i : Nat) (hi : i < items7.length) line cf, items7[i] = .instr line cf → cf.isCompressed = true →
-        Item.instr line cf ∈ resolveRegisterAliases items2 r.constants ∨
+    ∃ (lay : Layout) (out : List Item), layoutOf H true items = .ok lay ∧ lay.labels = r.labels ∧
+      lay.constants = r.constants ∧ Land H r.constants r.labels 0 lay.aligned out ∧ r.bytes = blobBytes out ∧
+      ∀ (i : Nat) (hi : i < lay.aligned.length) line cf, lay.aligned[i] = .instr line cf → cf.isCompressed = true →
+        (∃ cf0, Item.instr line cf0 ∈ items ∧ cf0.isCompressed = true ∧ cf = cf0.mapRegs (aliasReg r.constants)) ∨
         ∃ ins, ins.isCompressed = false ∧ ItemStep H r.constants (.instr line ins) (.instr line cf) ∧
           ((∀ imm, ins.imm? = some imm → ImmLabelFree H r.constants imm) →
             ∀ rins i32,
@@ -117,13 +120,17 @@ theorem assemble_compressed_literal_sound (H : Hooks) (items : List Item) (r : A
               denote32I rins = some i32 →
               ∃ w ci, (r.bytes.drop (blobBytes (out.take i)).length).take 2 = leBytes 2 w ∧
                 decode16 w = some ci ∧ ci.legal = true ∧ ∀ s, execC ci s = exec i32 2 s) := by
-  obtain ⟨items2, items3, items4, items6, items7, out, labels2, labels3, labels4, labels6, _, e7, h3, h4, h6, h7, hland, hbytes⟩ :=
-    assemble_stages_full H true items r h
-  refine ⟨items2, items7, out, e7, hland, hbytes, ?_⟩
+  obtain ⟨items1, items2, items3, items4, items6, items7, out, labels2, labels3, labels4, labels6, hlay, e7, h1, h2, h3, h4,
+    h6, h7, hland, hbytes⟩ := assemble_anchor H true items r h
+  refine ⟨⟨items6, items7, r.constants, r.labels⟩, out, hlay, rfl, rfl, hland, hbytes, ?_⟩
   intro i hi line cf hit hc
+  simp only at hit hi
   have hmem : Item.instr line cf ∈ items7 := by rw [← hit]; exact List.getElem_mem hi
   rcases compressed_origin H r.constants h3 h4 h6 h7 hmem hc with ho | ⟨ins, hnc, hstep⟩
-  · exact Or.inl ho
+  · obtain ⟨cf0, hm0, e⟩ := source_of_aliased h1 h2 ho
+    refine Or.inl ⟨cf0, hm0, ?_, e⟩
+    rw [e, mapRegs_isCompressed] at hc
+    exact hc
   · refine Or.inr ⟨ins, hnc, hstep, ?_⟩
     intro hfree rins i32 hres hden
     obtain ⟨it', line', d, _, hbody, hfin, hslice⟩ := hland.at i hi
@@ -140,10 +147,10 @@ theorem assemble_compressed_literal_sound (H : Hooks) (items : List Item) (r : A
 /-- with the front end's evaluator the `LitOK` hypothesis holds (`litOK_evalArith`) -/
 theorem assemble_compressed_literal_sound_text (H : Hooks) (hH : H.arith = evalArith) (items : List Item)
     (r : AsmResult) (h : assembleItems H true items [] [] = .ok r) :
-    ∃ items2 items7 out : List Item, Expands items items7 ∧ Land H r.constants r.labels 0 items7 out ∧
-      r.bytes = blobBytes out ∧
-      ∀ (i : Nat) (hi : i < items7.length) line cf, items7[i] = .instr line cf → cf.isCompressed = true →
-        Item.instr line cf ∈ resolveRegisterAliases items2 r.constants ∨
+    ∃ (lay : Layout) (out : List Item), layoutOf H true items = .ok lay ∧ lay.labels = r.labels ∧
+      lay.constants = r.constants ∧ Land H r.constants r.labels 0 lay.aligned out ∧ r.bytes = blobBytes out ∧
+      ∀ (i : Nat) (hi : i < lay.aligned.length) line cf, lay.aligned[i] = .instr line cf → cf.isCompressed = true →
+        (∃ cf0, Item.instr line cf0 ∈ items ∧ cf0.isCompressed = true ∧ cf = cf0.mapRegs (aliasReg r.constants)) ∨
         ∃ ins, ins.isCompressed = false ∧ ItemStep H r.constants (.instr line ins) (.instr line cf) ∧
           ((∀ imm, ins.imm? = some imm → ImmLabelFree H r.constants imm) →
             ∀ rins i32,
